@@ -229,7 +229,8 @@ class Indexer(object):
             The value to set.
         """
         if self._flat_src:
-            arr.ravel()[self.flat()] = val
+            # arr.ravel() is a copy when arr is not contiguous (e.g. a reversed view)
+            arr.flat[self.flat()] = val
         else:
             arr[self()] = val
 
